@@ -7,6 +7,7 @@ toolchain go1.23.5
 require golang.org/x/tools v0.29.0
 
 require (
+	github.com/mattn/go-sqlite3 v1.14.22
 	golang.org/x/mod v0.22.0 // indirect
 	golang.org/x/sync v0.10.0 // indirect
 )
